@@ -77,6 +77,24 @@ Lemma ok_item_env2 cx ps ws bws name args b tr ews fol sp l :
       && ok_items2 cx (env_body_state ps sp) b (tr ++ end_str ews name ++ fol)).
 Proof. intros A B. cbn [ok_item2]. rewrite A, B. reflexivity. Qed.
 
+Lemma node_of_spc2 cx ps p0 ws chars args sp l :
+  get_specials_spec cx chars = Some sp -> sp_args sp = APStd l ->
+  node_of2 cx ps p0 (Spc2 ws chars args) =
+  let ar := arg_nodes2 cx ps (p0 + length chars) args l in
+  Some (NSpecials p0 (snd ar) (ps_mode ps) chars (Some (map a_spec l, fst ar))).
+Proof. intros A B. cbn [node_of2]. rewrite A, B. reflexivity. Qed.
+
+Lemma ok_item_spc2 cx ps ws chars args fol sp l :
+  get_specials_spec cx chars = Some sp -> sp_args sp = APStd l ->
+  ok_item2 cx ps (Spc2 ws chars args) fol =
+  ws_ok ws && match chars with c :: _ => plain_start c | [] => false end
+  && match test_specials (map fst (cx_specials cx)) (chars ++ unparse_items2 args ++ fol) None with
+     | Some sc => str_eqb sc chars
+     | None => false
+     end
+  && ok_args2 cx ps args l fol.
+Proof. intros A B. cbn [ok_item2]. rewrite A, B. reflexivity. Qed.
+
 Lemma ok_items_cons2 cx ps j r fh :
   ok_items2 cx ps (j :: r) fh = ok_item2 cx ps j (unparse_items2 r ++ fh) && ok_items2 cx ps r fh.
 Proof. reflexivity. Qed.
@@ -109,6 +127,7 @@ Fixpoint isize2 (i : item2) : nat :=
   | Cmt2 _ _ _ => 1
   | Par2 _ _ => 1
   | Env2 _ _ _ a b _ _ => S (fold_right (fun i n => isize2 i + n) 0 a + fold_right (fun i n => isize2 i + n) 0 b)
+  | Spc2 _ _ a => S (fold_right (fun i n => isize2 i + n) 0 a)
   end.
 Definition lsize2 (l : list item2) := fold_right (fun i n => isize2 i + n) 0 l.
 Lemma isize_pos2 i : 1 <= isize2 i. Proof. destruct i; cbn; lia. Qed.
@@ -314,7 +333,7 @@ Section Sim.
     - cbn [ok_args2] in OKA. apply andb_true_iff in OKA. destruct OKA as [OKA OKR].
       apply andb_true_iff in OKA. destruct OKA as [KD OKI].
       destruct (a_kind spc) as [aps| | |] eqn:AK; try discriminate.
-      destruct a as [|ws b tr| | | | |]; try discriminate. destruct ws; [|discriminate].
+      destruct a as [|ws b tr| | | | | |]; try discriminate. destruct ws; [|discriminate].
       set (ps' := apply_adelta ps (a_delta spc)) in *.
       assert (SD' : Std cx ps') by (apply std_adelta; exact SD).
       rewrite ok_item_grp2 in OKI. apply andb_true_iff in OKI. destruct OKI as [OKI OKB].
@@ -394,6 +413,10 @@ Section Sim.
     rewrite S4. reflexivity.
   Qed.
 
+  Lemma ilen_spc2 ws chars args :
+    ilen2 (Spc2 ws chars args) = length ws + length chars + length (unparse_items2 args).
+  Proof. unfold ilen2, unparse_items2. cbn [unparse_item2]. rewrite !app_length. lia. Qed.
+
   Lemma ilen_env2 ws bws name args b tr ews :
     ilen2 (Env2 ws bws name args b tr ews)
     = length ws + length (begin_str bws name) + length (unparse_items2 args) + length (unparse_items2 b)
@@ -409,7 +432,7 @@ Section Sim.
     R (k + 8 * ilen2 i) (TCollect ps o st pos) = r.
   Proof.
     intros IH i ps o st pos fol k r SZ SD OK NR OKI SK H. pose proof (std_view_of cx ps SD) as V.
-    destruct i as [ws cs|ws b tr|ws name post args|ws mk b tr|ws text post|ws mid|ws bws name args b tr ews]; cycle 4.
+    destruct i as [ws cs|ws b tr|ws name post args|ws mk b tr|ws text post|ws mid|ws bws name args b tr ews|ws chars args]; cycle 4.
     - (* comment *)
       cbn [ok_item2] in OKI. apply andb_true_iff in OKI. destruct OKI as [OKI FO].
       apply andb_true_iff in OKI. destruct OKI as [OKI NLs].
@@ -507,6 +530,43 @@ Section Sim.
           with (pb + length (unparse_items2 b) + length tr + length (end_str ews name)) in H
           by (unfold pb, pa, p0; lia).
         exact H.
+    - (* specials *)
+      destruct (get_specials_spec cx chars) as [sp|] eqn:GS;
+        [|cbn [ok_item2] in OKI; rewrite GS, andb_false_r in OKI; discriminate].
+      destruct (sp_args sp) as [l|lk] eqn:SA;
+        [|cbn [ok_item2] in OKI; rewrite GS, SA, andb_false_r in OKI; discriminate].
+      rewrite (ok_item_spc2 cx ps ws chars args fol sp l GS SA) in OKI.
+      apply andb_true_iff in OKI. destruct OKI as [OKI OKA].
+      apply andb_true_iff in OKI. destruct OKI as [OKI TS].
+      apply andb_true_iff in OKI. destruct OKI as [W PS].
+      destruct chars as [|c cr]; [discriminate|].
+      destruct (test_specials (map fst (cx_specials cx)) ((c :: cr) ++ unparse_items2 args ++ fol) None)
+        as [sc|] eqn:TS'; [|discriminate].
+      apply pe_str_eqb_eq in TS. subst sc.
+      cbn [isize2] in SZ. fold (lsize2 args) in SZ.
+      set (p0 := pos + length ws).
+      set (pe := p0 + length (c :: cr)).
+      assert (SK' : skipn pos s = ws ++ (c :: cr) ++ unparse_items2 args ++ fol).
+      { unfold unparse_items2. cbn [unparse_item2] in SK. rewrite <- !app_assoc in SK. exact SK. }
+      pose proof (skipn_shift _ _ _ _ SK') as SK0. fold p0 in SK0.
+      pose proof (skipn_shift _ _ _ _ SK0) as SKa. fold pe in SKa.
+      assert (T : impl_peek ps s pos = TokOk (Tokenizer.mk TkSpecials (c :: cr) p0 pe ws [])).
+      { destruct (plain_start_facts c PS) as (SP & _).
+        rewrite (impl_peek_dispatch ps s pos ws c (cr ++ unparse_items2 args ++ fol) W SK' SP). fold p0.
+        apply (dispatch_specials cx ps V s p0 ws c cr _ PS TS'). }
+      pose proof (args_run2 n IH args l ps [] pe fol SD ltac:(lia) OKA SKa) as A. cbn [app] in A.
+      pose proof (rule_tcall_spc s cx _ ps (c :: cr) p0 pe sp l _ _ SA A) as C.
+      cbn [absorb_item2 item_ws2] in H. fold p0 in H.
+      rewrite (node_of_spc2 cx ps p0 ws (c :: cr) args sp l GS SA) in H. cbn zeta in H. fold pe in H.
+      rewrite (arg_nodes_pos2 cx ps args pe l (ok_args_length2 ps args _ l OKA)) in H.
+      set (N0 := k + 2 + 8 * length (unparse_items2 args)).
+      apply (lift (S N0)); [|exact NR|rewrite ilen_spc2; unfold N0; cbn [length]; lia].
+      eapply (rule_specials s cx N0 ps o st pos ws (c :: cr) pe sp _ _ r OK GS T).
+      + apply (lift _ N0) in C; [exact C|discriminate|unfold N0; lia].
+      + apply (lift _ N0) in H; [|exact NR|unfold N0; lia].
+        rewrite ilen_spc2 in H.
+        replace (pos + (length ws + length (c :: cr) + length (unparse_items2 args)))
+          with (pe + length (unparse_items2 args)) in H by (unfold pe, p0; lia). exact H.
     - (* text *)
       cbn [ok_item2] in OKI. apply andb_true_iff in OKI. destruct OKI as [OKI IN].
       apply andb_true_iff in OKI. destruct OKI as [W NE]. destruct cs as [|c cs]; [discriminate|].
